@@ -31,7 +31,7 @@ def main():
               'loops), the other generators and the repo fixtures; oracle: identical outcome/stdout/error line. '
               'distinct = programs with at least one cache hit'),
         n_gen_quick=500, n_gen_thorough=9000, cfgs=['dbg', 'rel'] + (['asan'] if tier == 'thorough' else []),
-        kinds=('classes', 'dynclasses', 'classes', 'scope', 'exc', 'core', 'opcover'),
+        kinds=('classes', 'dynclasses', 'mixins', 'classes', 'scope', 'exc', 'core', 'opcover'),
         stat_keys=('inv_hits', 'prop_hits', 'inv_misses', 'prop_misses', 'inv_clears', 'prop_clears', 'collections',
                    'h_reused'),
         requires=[('inv_hits', 20000, 400000), ('prop_hits', 5000, 100000), ('h_reused', 10000, 200000)], timeout=90)
